@@ -65,5 +65,28 @@ func BindSpecs(thorough bool) []*spec.Spec {
 		f := &spec.File{Messages: append(msgs, spec.M("Out", spec.F("ok", "bool"))), Services: []*spec.Service{s}}
 		out = append(out, withCell(spec.One("bind_path_kinds", f), "bind/loc=path,card=singular", "extended", "valid", "bind"))
 	}
+	{
+		// URL-bound fields that carry a JSON annotation: 64-bit integers with int64_encoding NUMBER (and, as a control, STRING) as
+		// path variables on a bodiless and on a body verb, and as singular / optional / repeated query parameters
+		var msgs []*spec.Message
+		s := spec.Svc("AnnBindService", "/ab")
+		for _, k := range []string{"int64", "uint64", "sint64", "fixed64", "sfixed64"} {
+			for enc, encName := range map[int32]string{2: "number", 1: "string"} {
+				if encName == "string" && k != "int64" {
+					continue
+				}
+				pm := spec.M("PN_"+k+"_"+encName, spec.F("v", k).I64(enc), spec.F("note", "string"))
+				gm := spec.M("GN_"+k+"_"+encName, spec.F("v", k).I64(enc), spec.F("note", "string").Q(""))
+				qm := spec.M("QN_"+k+"_"+encName, spec.F("one", k).I64(enc).Q(""), spec.F("opt", k).I64(enc).Opt().Q("o"), spec.F("many", k).I64(enc).Rep().Q(""))
+				msgs = append(msgs, pm, gm, qm)
+				s.Methods = append(s.Methods,
+					spec.RPC("Put_"+k+"_"+encName, pm.Name, "Out", "PUT", "/p/"+k+"/"+encName+"/{v}"),
+					spec.RPC("Get_"+k+"_"+encName, gm.Name, "Out", "GET", "/g/"+k+"/"+encName+"/{v}"),
+					spec.RPC("Query_"+k+"_"+encName, qm.Name, "Out", "GET", "/q/"+k+"/"+encName))
+			}
+		}
+		f := &spec.File{Messages: append(msgs, spec.M("Out", spec.F("ok", "bool"))), Services: []*spec.Service{s}}
+		out = append(out, withCell(spec.One("bind_annotated", f), "bind/loc=url,card=annotated", "extended", "valid", "bind"))
+	}
 	return out
 }
